@@ -146,6 +146,22 @@ def generate(streams: core.Streams, tier: str) -> dict:
         if gen.chance(w, 0.4):
             tr.append({"type": "field_name_prefix", "prefix": "x."})
         sc["conv_pipeline"] = {"name": "conv", "priority": 0, "transformations": tr}
+    # drawn last as well (round 9): a selector WITHOUT a wildcard is an exact name - '1 of selection' does
+    # not refer to 'selection_other', and 'all of filter' does not match 'filter_x' (nor the other way round:
+    # '1 of filter_x' with only 'filter' present is dangling).
+    if gen.chance(w, 0.3):
+        k = w.randrange(len(docs))
+        if docs[k].get("detection") is not None:
+            shape = gen.pick(w, ["prefix-sibling-unused", "exact-missing", "both"])
+            det = {"selection": {"User": "x"}, "selection_other": {"Image": "y"}}
+            if shape == "prefix-sibling-unused":
+                det["condition"] = gen.pick(w, ["1 of selection", "all of selection", "any of selection"])
+            elif shape == "exact-missing":
+                det["condition"] = gen.pick(w, ["selection and not 1 of selection_othe", "1 of selection_other and not all of sel"])
+            else:
+                det["filter"] = {"User": "z"}
+                det["condition"] = gen.pick(w, ["1 of selection and not 1 of filter", "all of selection_other or 1 of filter_x"])
+            docs[k]["detection"] = det
     return sc
 
 
